@@ -1,0 +1,65 @@
+//go:build verif
+
+package rtmp
+
+import (
+	"bytes"
+	"net"
+)
+
+// VerifHandleTcpConnect runs the server shell (handleTcpConnect) on a connection
+// supplied by the verification harness instead of one taken from Accept.
+func (server *Server) VerifHandleTcpConnect(conn net.Conn) {
+	server.handleTcpConnect(conn)
+}
+
+// VerifIsClosed reports whether the connection of a started pull session has
+// been closed (Dispose or read error).  A zero-length write is the only probe
+// naza's connection offers; it transfers nothing.
+func (s *PullSession) VerifIsClosed() bool {
+	if s.core.conn == nil {
+		return false
+	}
+	_, err := s.core.conn.Write(nil)
+	return err != nil
+}
+
+// VerifPackConnect / VerifPackPublish run the client side MessagePacker exactly
+// as ClientSession does (fresh packer, writeChunkSize first) and return the bytes.
+func VerifPackConnect(appName, tcUrl string, isPush bool) []byte {
+	var out bytes.Buffer
+	p := NewMessagePacker()
+	_ = p.writeChunkSize(&out, LocalChunkSize)
+	_ = p.writeConnect(&out, appName, tcUrl, isPush)
+	return out.Bytes()
+}
+
+func VerifPackPublish(appName, streamName string, streamid int) []byte {
+	var out bytes.Buffer
+	p := NewMessagePacker()
+	_ = p.writePublish(&out, appName, streamName, streamid)
+	return out.Bytes()
+}
+
+func VerifPackPlay(streamName string, streamid int) []byte {
+	var out bytes.Buffer
+	p := NewMessagePacker()
+	_ = p.writePlay(&out, streamName, streamid)
+	return out.Bytes()
+}
+
+// VerifPackSeq: the packer of one client session is reused for every signalling
+// message; this runs connect, createStream and publish/play on ONE packer.
+func VerifPackSeq(appName, tcUrl, streamName string, isPush bool) []byte {
+	var out bytes.Buffer
+	p := NewMessagePacker()
+	_ = p.writeChunkSize(&out, LocalChunkSize)
+	_ = p.writeConnect(&out, appName, tcUrl, isPush)
+	_ = p.writeCreateStream(&out)
+	if isPush {
+		_ = p.writePublish(&out, appName, streamName, Msid1)
+	} else {
+		_ = p.writePlay(&out, streamName, Msid1)
+	}
+	return out.Bytes()
+}
